@@ -4,9 +4,8 @@
 
    Model: model/Catalog.v (hand-written, skeleton level: schemas are opaque descriptors), tied to
    the implementation by the full-pipeline correspondence check (verifsys/checks/c09.py,
-   verifsys/corecheck.py compare_full).  [build pp bt banned pre post pe = COk c]: c is the catalog of
-   an accepted project whose expanded directive forest is [post]; [pe] are the enum names that
-   PASTE registered (pairwise different: enum_names_of_pastes_unique).
+   verifsys/corecheck.py compare_full).  [build pp bt banned post = COk c]: c is the catalog of
+   an accepted project whose expanded directive forest is [post].
 
    What is NOT covered here (decided by the schema library, outside the skeleton): validity of the
    UTF-8 / JSON text itself, equality of the indented and compact forms, the content of schemas and
@@ -21,18 +20,18 @@ Import ListNotations.
 Open Scope N_scope.
 
 (* ---- no repeated key in any of the five ordered maps (keys compared as byte strings / as ids) ---- *)
-Theorem keys_unique : forall pp bt banned pre post pe c,
-  NoDup (map fst pe) ->
-  build pp bt banned pre post pe = COk c ->
+Theorem keys_unique : forall pp bt banned post c,
+  build pp bt banned post = COk c ->
   NoDup (map fst (c_servers c)) /\ NoDup (map fst (c_types c)) /\ NoDup (map fst (c_enums c)) /\
   NoDup (map fst (c_tags c)) /\ NoDup (map fst (c_inters c)).
 Proof. exact keys_unique_lemma. Qed.
 Print Assumptions keys_unique.
 
-Theorem enum_names_of_pastes_unique : forall ts pre post pen m,
-  expand_full ts = COk (pre, post, pen, m) -> NoDup pen.
-Proof. exact expand_full_enums_nodup. Qed.
-Print Assumptions enum_names_of_pastes_unique.
+(* the enum collection the fold starts from (collectRules over the expanded forest) *)
+Theorem enum_names_unique : forall ts en,
+  collect_enums ts [] = COk en -> NoDup (map fst en).
+Proof. exact enum_names_unique_lemma. Qed.
+Print Assumptions enum_names_unique.
 
 (* ---- the JSON key of an interaction: InteractionID.String() ---- *)
 
@@ -75,18 +74,16 @@ Print Assumptions json_keys_unique_refuted.
    every byte that is not valid UTF-8, which is not injective (GET /a\xff and GET /a\xfe become one
    key: found by the dynamic part, class invalid-utf8-key).  A model of that encoder plus the guard
    "paths and method names are valid UTF-8 without U+FFFD" would close the gap. *)
-Theorem json_keys_unique_partial : forall pp bt banned pre post pe c,
-  NoDup (map fst pe) ->
-  build pp bt banned pre post pe = COk c ->
+Theorem json_keys_unique_partial : forall pp bt banned post c,
+  build pp bt banned post = COk c ->
   (forall i x, In (i, x) (c_inters c) -> i_proto i = PRpc -> ~ In 32 (i_method i)) ->
   NoDup (map (fun e => iid_string (fst e)) (c_inters c)).
 Proof. exact json_keys_unique_partial_lemma. Qed.
 Print Assumptions json_keys_unique_partial.
 
 (* ---- every interaction's key is its id and encodes protocol, method and path ---- *)
-Theorem ids_consistent : forall pp bt banned pre post pe c,
-  NoDup (map fst pe) ->
-  build pp bt banned pre post pe = COk c ->
+Theorem ids_consistent : forall pp bt banned post c,
+  build pp bt banned post = COk c ->
   forall i x, In (i, x) (c_inters c) ->
     iproto x = i_proto i /\ has_slash_prefix (i_path i) = true /\
     (i_proto i = PHttp -> http_method_name (i_method i) /\
@@ -98,9 +95,8 @@ Print Assumptions ids_consistent.
 
 (* ---- tags and interactions reference each other mutually ----
    tl p tg = the interaction list of tag tg for protocol p (t_http / t_rpc) *)
-Theorem tags_mutual : forall pp bt banned pre post pe c,
-  NoDup (map fst pe) ->
-  build pp bt banned pre post pe = COk c ->
+Theorem tags_mutual : forall pp bt banned post c,
+  build pp bt banned post = COk c ->
   (forall i x n, In (i, x) (c_inters c) -> In n (itags x) ->
      exists tg, In (n, tg) (c_tags c) /\ In i (tl (i_proto i) tg)) /\
   (forall n tg p j, In (n, tg) (c_tags c) -> In j (tl p tg) ->
@@ -109,9 +105,8 @@ Proof. exact tags_mutual_lemma. Qed.
 Print Assumptions tags_mutual.
 
 (* ---- every request and every response has a body (validateRequestBody / validateResponseBody) ---- *)
-Theorem bodies_present : forall pp bt banned pre post pe c,
-  NoDup (map fst pe) ->
-  build pp bt banned pre post pe = COk c ->
+Theorem bodies_present : forall pp bt banned post c,
+  build pp bt banned post = COk c ->
   (forall i h rq, In (i, IHttp h) (c_inters c) -> hi_request h = Some rq -> exists b, q_body rq = Some b) /\
   (forall i h r, In (i, IHttp h) (c_inters c) -> In r (hi_responses h) -> exists b, r_body r = Some b).
 Proof. exact bodies_present_lemma. Qed.
@@ -121,9 +116,8 @@ Print Assumptions bodies_present.
    body_ok b: b_format b = format_of n for a notation n in {jsight, regex, any, empty}
    (json <-> jsight, plainString <-> regex, binary <-> any/empty), where a body without schema text has
    n in {any, empty} and a body that is a type reference has n = jsight *)
-Theorem format_matches_notation : forall pp bt banned pre post pe c,
-  NoDup (map fst pe) ->
-  build pp bt banned pre post pe = COk c ->
+Theorem format_matches_notation : forall pp bt banned post c,
+  build pp bt banned post = COk c ->
   forall i h, In (i, IHttp h) (c_inters c) ->
     (forall rq b, hi_request h = Some rq -> q_body rq = Some b -> body_ok b) /\
     (forall r b, In r (hi_responses h) -> r_body r = Some b -> body_ok b).
